@@ -7,19 +7,23 @@
  *   usn  <alpha> <len> <from> <count>          strip_name
  *   uinc [base] <alpha> <len> <from> <count>   inc_lexically_normal + the paths inc_open tries to open
  *   ulp1 [s] | ucvp1 <policy> [s] | usn1 [s] | uinc1 [base] [name]      the same for one explicit string
+ *   uil <alpha> <len> <from> <count> | uil1 [list]   set_inc_list (list): the stored search path ("-" = entry dropped)
  * system style (file efuns called from LPC, libc file functions interposed and logged):
  *   policy deny|allow|echo|fixed=[str]|raise|raiseon=[path]|odd=[array|emptyarray|float|float0|object|neg|two]
  *                                              master policy for valid_read / valid_write
  *   fx <efun> [a] [b]                          fresh fixture, then /c15/obj->do_efun (efun, a, b)
  *   es [file] c1,c2,...                       fresh fixture, editing session (see ed_session ())
  *   inc [basefile] [name]                      fresh fixture, basefile := `#include "name"`, load it
+ *   inca / incm [basefile] [name]              the same with `#include <name>` / `#define VHDR "name"` + `#include VHDR`
  *   inh [basefile] [name]                      fresh fixture, basefile := `inherit "name";`, load it
  *   ld [name]                                  fresh fixture, load_object (name)
+ *   ldb [name]                                 (after `binaries on`) #pragma save_binary source, loaded twice
  *
  * output lines:  lp [s] 0|1 / cvp <verdict> [s] -> [r]|none / sn [s] -> [r]|none /
  *                inc [base] [name] -> [normal] tries [t]... /
  *                call <efun> <who> [a]... / valid_read|valid_write [path] <who> <op> -> 0|1|=[str] (from the master) /
- *                fs <libc function> r|w [path]
+ *                fs <libc function> r|w [path]      (efuns get_dir1 / stat1 = get_dir (a, -1) / stat (a, -1);
+ *                `fs stat-entry` = a stat () made while the directory stream of the efun is open, sorted)
  */
 #include "vh.h"
 #include <dlfcn.h>
@@ -39,16 +43,78 @@ const char *__asan_default_options (void) { return "symbolize=0"; }
 const char *__ubsan_default_options (void) { return "symbolize=0"; }
 
 /* ---- libc interposition ---------------------------------------------------------------------- */
-static int fs_armed = 0;	/* 1: log, 2: log and fail with ENOENT without touching anything */
+static int fs_armed = 0;	/* 1: log, 2: log and fail with ENOENT without touching anything, 3: log unsafe paths only */
 #define MAXREC 64
 static char fs_rec[MAXREC][1100];
 static int fs_nrec = 0;
 static int fs_recording = 0;	/* collect instead of printing (unit style inc_open) */
 
+/* get_dir (path, -1): the stat () calls issued while the directory stream the efun opened is still open are
+ * per-entry calls in readdir order (the kernel's): they are collected and printed SORTED as `fs stat-entry`
+ * when the stream is closed (or the call ends) */
+static char **root_keep;
+static int root_nkeep;
+static int dir_open = 0;
+static char *ent_rec[1024];
+static int ent_n = 0;
+
+static int ent_cmp (const void *a, const void *b)
+{
+  return strcmp (*(char *const *) a, *(char *const *) b);
+}
+
+static void fs_log (const char *fn, int w, const char *path);
+static void ent_flush (void)
+{
+  int n = ent_n;
+  dir_open = 0;
+  ent_n = 0;
+  qsort (ent_rec, n, sizeof ent_rec[0], ent_cmp);
+  for (int i = 0; i < n; i++)
+    {
+      /* the mudlib root also holds the framework's own files (other properties' directories, master.c ...): a
+         per-entry call on one of those - "./<name>", <name> present before the first case and not part of the
+         fixture - is not logged (the model only knows the fixture) */
+      const char *nm = ent_rec[i];
+      int skip = 0;
+      if (nm[0] == '.' && nm[1] == '/' && !strchr (nm + 2, '/') && strcmp (nm + 2, "include")
+	  && strcmp (nm + 2, ".") && strcmp (nm + 2, ".."))
+	for (int k = 0; k < root_nkeep; k++)
+	  if (!strcmp (root_keep[k], nm + 2))
+	    skip = 1;
+      if (!skip)
+	fs_log ("stat-entry", 0, nm);
+      free (ent_rec[i]);
+    }
+}
+
+static int path_unsafe (const char *p)
+{				/* absolute, or a ".." component */
+  if (!p || p[0] == '/')
+    return 1;
+  for (const char *q = p; q; q = strchr (q, '/'), q = q ? q + 1 : 0)
+    if (q[0] == '.' && q[1] == '.' && (q[2] == '/' || q[2] == 0))
+      return 1;
+  return 0;
+}
+
+static long fs_quiet_count = 0;
+
 static void fs_log (const char *fn, int w, const char *path)
 {
   if (!fs_armed)
     return;
+  if (fs_armed == 3)
+    {				/* saved-binary runs: only calls on unsafe paths are printed */
+      fs_quiet_count++;
+      if (!path_unsafe (path))
+	return;
+    }
+  if (dir_open > 0 && !fs_recording && !strcmp (fn, "stat") && ent_n < 1024)
+    {
+      ent_rec[ent_n++] = strdup (path ? path : "(null)");
+      return;
+    }
   if (fs_recording)
     {
       if (fs_nrec < MAXREC)
@@ -84,6 +150,7 @@ REAL (int, rename, (const char *, const char *))
 REAL (int, mkdir, (const char *, mode_t))
 REAL (int, rmdir, (const char *))
 REAL (DIR *, opendir, (const char *))
+REAL (int, closedir, (DIR *))
 REAL (int, link, (const char *, const char *))
 REAL (int, symlink, (const char *, const char *))
 REAL (int, access, (const char *, int))
@@ -315,7 +382,18 @@ DIR *opendir (const char *path)
   fs_log ("opendir", 0, path);
   if (FAILMODE)
     ENOENT_RET (0);
-  return real_opendir (path);
+  DIR *d = real_opendir (path);
+  if (d && fs_armed && !fs_recording)
+    dir_open++;
+  return d;
+}
+
+int closedir (DIR * d)
+{
+  init_closedir ();
+  if (fs_armed && dir_open > 0 && --dir_open == 0)
+    ent_flush ();
+  return real_closedir (d);
 }
 
 int link (const char *from, const char *to)
@@ -427,12 +505,12 @@ static object_t *the_obj (void)
 
 /* current policy as the harness knows it (to print the verdict of the unit-style cvp lines) */
 static char pol_kind[16] = "allow";
-static char pol_str[1100] = "";
+static char pol_str[4200] = "";
 
 static void set_policy (const char *tok, int quiet)
 {
   char kind[16], *a[3], q[2];
-  char tmp[1200];
+  char tmp[4300];
   snprintf (tmp, sizeof tmp, "%s", tok);
   char *eq = strchr (tmp, '=');
   pol_str[0] = 0;
@@ -482,7 +560,7 @@ static void u_lp (const char *s)
 static void u_cvp (const char *s)
 {
   error_context_t econ;
-  char v[1200];
+  char v[4400];
   char *volatile r = 0;
   volatile int err = 0;
   object_t *ob = the_obj ();
@@ -538,13 +616,32 @@ static void u_inc (const char *base, const char *name)
   vh_out ("%s", line);
 }
 
+/* set_inc_list (list): the entries it stores ("-" = dropped), then the previous search path is put back */
+static void u_il (const char *list)
+{
+  char **old = inc_list;
+  int oldn = inc_list_size;
+  char line[8000];
+  size_t o;
+  inc_list = 0;
+  inc_list_size = 0;
+  set_inc_list (list);
+  o = snprintf (line, sizeof line, "il [%s] ->", list);
+  for (int i = 0; i < inc_list_size && o < sizeof line - 1200; i++)
+    o += snprintf (line + o, sizeof line - o, inc_list[i] ? " [%s]" : " -", inc_list[i]);
+  vh_out ("%s", line);
+  if (inc_list)
+    reset_inc_list ();
+  inc_list = old;
+  inc_list_size = oldn;
+}
+
 /* ---- fixture -------------------------------------------------------------------------------------
  * mudlib root:  a/ (dir)  a/a (file)  a/aa/ (dir)  a/a.c (LPC)  aa (file)  aa.c (LPC)  a.c (LPC)
  *               d/ (dir)  d/f.txt  d/obj.c (LPC)  d/sub/ (dir)  d/inc.h   include/a  include/std.h
  * parent of the mudlib root (must never be touched): outside.txt  x.c  a (file)
  */
-static char **root_keep = 0;
-static int root_nkeep = 0;
+/* root_keep / root_nkeep: declared above */
 
 static void rm_rf (const char *path)
 {
@@ -668,16 +765,12 @@ static void fixture (void)
 }
 
 /* ---- system style -------------------------------------------------------------------------------- */
-static void sys_load (const char *kind, const char *file, const char *a0, const char *a1)
+static void do_load (const char *file, int mode)
 {
   error_context_t econ;
   object_t *volatile ob = 0;
-  if (a1)
-    vh_out ("call %s - [%s] [%s]", kind, a0, a1);
-  else
-    vh_out ("call %s - [%s]", kind, a0);
   save_context (&econ);
-  fs_armed = 1;
+  fs_armed = mode;
   if (!setjmp (econ.context))
     {
       eval_cost = CONFIG_INT (__MAX_EVAL_COST__);
@@ -706,6 +799,15 @@ static void sys_load (const char *kind, const char *file, const char *a0, const 
 	  pop_context (&econ);
 	}
     }
+}
+
+static void sys_load (const char *kind, const char *file, const char *a0, const char *a1)
+{
+  if (a1)
+    vh_out ("call %s - [%s] [%s]", kind, a0, a1);
+  else
+    vh_out ("call %s - [%s]", kind, a0);
+  do_load (file, 1);
 }
 
 static void ed_do (object_t * ob, const char *cmd0, const char *arg)
@@ -793,8 +895,52 @@ static int c15_cmd (char *line)
       vh_out (has ? "master present" : "master absent");
       return 1;
     }
+  if (!strcmp (line, "binaries on"))
+    {
+      /* this case must run with SaveBinaryDir configured (props/c15.py picks the conf) */
+      vh_out (CONFIG_STR (__SAVE_BINARIES_DIR__) ? "binaries on" : "binaries off");
+      return 1;
+    }
+  if (!strncmp (line, "ldb ", 4))
+    {
+      /* ldb [name]: fresh fixture, <strip_name (name)>.c := `#pragma save_binary` source (when that is a safe path),
+         load it (the binary is saved), destruct, load it again (the binary is loaded).  Only libc calls on UNSAFE
+         paths are printed (binaries.c belongs to another property: its exact call sequence is not pinned here),
+         then whether SaveBinaryDir/<name>.b exists. */
+      char nbuf[PATH_MAX - 2], src[PATH_MAX + 8], bin[PATH_MAX + 64];
+      struct stat st;
+      char *name;
+      int saved = 0;
+      snprintf (copy, sizeof copy, "%s", line + 4);
+      name = unbr (copy);
+      fixture ();
+      rm_rf ("bin");
+      nbuf[0] = 0;
+      if (strip_name (name, nbuf, sizeof nbuf))
+	{
+	  snprintf (src, sizeof src, "%s.c", nbuf);
+	  if (!path_unsafe (src))
+	    {
+	      mk_dirs_for (src);
+	      put_file (src, "#pragma save_binary\nvoid g () { }\n");
+	    }
+	}
+      vh_out ("call binary - [%s]", name);
+      fs_quiet_count = 0;
+      do_load (name, 3);
+      do_load (name, 3);
+      init_stat ();
+      snprintf (bin, sizeof bin, "bin/%s.b", nbuf);
+      if (nbuf[0] && real_stat (bin, &st) == 0)
+	saved = 1;
+      vh_out ("binary [%s] saved=%d", name, saved);
+      if (saved && fs_quiet_count == 0)
+	vh_out ("binary !no-libc-call-observed");
+      return 1;
+    }
   if (strncmp (line, "u", 1) && strncmp (line, "policy ", 7) && strncmp (line, "fx ", 3)
-      && strncmp (line, "inc ", 4) && strncmp (line, "inh ", 4) && strncmp (line, "ld ", 3)
+      && strncmp (line, "inc ", 4) && strncmp (line, "inca ", 5) && strncmp (line, "incm ", 5)
+      && strncmp (line, "inh ", 4) && strncmp (line, "ld ", 3)
       && strncmp (line, "es ", 3))
     return 0;
   snprintf (copy, sizeof copy, "%s", line);
@@ -821,6 +967,24 @@ static int c15_cmd (char *line)
     {
       set_policy (tok[1], 1);
       u_cvp (unbr (tok[2]));
+      return 1;
+    }
+  if (!strcmp (tok[0], "uil1") && n == 2)
+    {
+      u_il (unbr (tok[1]));
+      return 1;
+    }
+  if (!strcmp (tok[0], "uil") && n == 5)
+    {
+      int len = atoi (tok[2]);
+      long from = atol (tok[3]), cnt = atol (tok[4]);
+      if (len < 0 || len > 4000)
+	return 0;
+      for (long i = from; i < from + cnt; i++)
+	{
+	  nth_string (tok[1], len, i, sbuf);
+	  u_il (sbuf);
+	}
       return 1;
     }
   if (!strcmp (tok[0], "uinc1") && n == 3)
@@ -907,10 +1071,12 @@ static int c15_cmd (char *line)
 	}
       fs_armed = 1;
       vh_apply_str (ob, "do_efun", 3, a, 0, 0);
+      if (ent_n || dir_open)
+	ent_flush ();
       fs_armed = 0;
       return 1;
     }
-  if ((!strcmp (tok[0], "inc") || !strcmp (tok[0], "inh")) && n == 3)
+  if ((!strcmp (tok[0], "inc") || !strcmp (tok[0], "inca") || !strcmp (tok[0], "incm") || !strcmp (tok[0], "inh")) && n == 3)
     {
       char text[4096];
       char *base = unbr (tok[1]), *name = unbr (tok[2]);
@@ -918,7 +1084,11 @@ static int c15_cmd (char *line)
       int save = fs_armed;
       fs_armed = 0;
       mk_dirs_for (base);
-      if (tok[0][2] == 'c')
+      if (!strcmp (tok[0], "inca"))	/* #include <name> */
+	snprintf (text, sizeof text, "#include <%s>\nvoid g () { }\n", name);
+      else if (!strcmp (tok[0], "incm"))	/* #include MACRO */
+	snprintf (text, sizeof text, "#define VHDR \"%s\"\n#include VHDR\nvoid g () { }\n", name);
+      else if (tok[0][2] == 'c')
 	snprintf (text, sizeof text, "#include \"%s\"\nvoid g () { }\n", name);
       else
 	snprintf (text, sizeof text, "inherit \"%s\";\nvoid g () { }\n", name);
